@@ -552,6 +552,87 @@ theorem readLoop_big (trk : Tracker) (tl : Tail) (fuel : Nat) (ps : List Nat) (s
       rw [hr] at hpost
       exact absurd hpost id
 
+/-! ### fields the two halves of a stream leave alone -/
+
+/-- Writing never touches the read half. -/
+def SameRead (st st' : FS) : Prop :=
+  st'.tunnelID = st.tunnelID ∧ st'.conn = st.conn ∧ st'.readEOF = st.readEOF ∧
+  st'.readBuf = st.readBuf ∧ st'.readOff = st.readOff
+
+theorem write_fields (st : FS) (p : Bytes) : SameRead st (st.write p).2 := by
+  unfold FS.write SameRead
+  by_cases h1 : st.writeEOF = true
+  · simp [h1]
+  · by_cases h2 : (p.length == 0) = true
+    · simp [h1, h2]
+    · by_cases h3 : p.length > crossnode.MaxFrameSize
+      · cases h4 : (writeLoop st.tunnelID p p.length 0 st.out).2.1 <;> simp [h1, h2, h3, h4]
+      · cases h4 : writeFrame ⟨st.tunnelID, crossnode.FrameTypeData, p⟩ <;> simp [h1, h2, h3, h4]
+
+theorem closeWith_fields (st : FS) (ty : Nat) : SameRead st (st.closeWith ty) := by
+  unfold FS.closeWith SameRead
+  repeat' split
+  all_goals simp
+
+theorem SameRead.trans {a b c : FS} (h1 : SameRead a b) (h2 : SameRead b c) : SameRead a c := by
+  obtain ⟨a1, a2, a3, a4, a5⟩ := h1
+  obtain ⟨b1, b2, b3, b4, b5⟩ := h2
+  exact ⟨b1.trans a1, b2.trans a2, b3.trans a3, b4.trans a4, b5.trans a5⟩
+
+theorem runWriter_fields (st : FS) (evs : List Ev) : SameRead st (runWriter st evs).2 := by
+  induction evs generalizing st with
+  | nil => exact ⟨rfl, rfl, rfl, rfl, rfl⟩
+  | cons e evs ih =>
+    cases e with
+    | write p => exact (write_fields st p).trans (ih _)
+    | closeWrite => exact (closeWith_fields st _).trans (ih _)
+    | close => exact (closeWith_fields st _).trans (ih _)
+    | inject tid ty d =>
+      simp only [runWriter]
+      split
+      · exact ih st
+      · exact SameRead.trans ⟨rfl, rfl, rfl, rfl, rfl⟩ (ih _)
+
+/-- Reading never touches the write half. -/
+def SameWrite (st st' : FS) : Prop :=
+  st'.tunnelID = st.tunnelID ∧ st'.writeEOF = st.writeEOF ∧ st'.out = st.out
+
+theorem nextFrame_fields (trk : Tracker) (k : Nat) (st : FS) (p : Nat) : SameWrite st (nextFrame trk k st p).2 := by
+  induction k generalizing st with
+  | zero => exact ⟨rfl, rfl, rfl⟩
+  | succ k ih =>
+    unfold nextFrame
+    simp only
+    split
+    · split <;> exact ⟨rfl, rfl, rfl⟩
+    · have h := ih { st with conn := (readFrame st.conn).rest }
+      repeat' split
+      all_goals first | exact h | exact ⟨rfl, rfl, rfl⟩
+
+theorem read_fields (trk : Tracker) (fuel : Nat) (st : FS) (p : Nat) : SameWrite st (FS.read trk fuel st p).2 := by
+  unfold FS.read SameWrite
+  by_cases h1 : st.readEOF = true
+  · simp [h1]
+  · by_cases h2 : st.readOff < st.readBuf.length
+    · simp only [h1, h2, Bool.false_eq_true, if_false, if_true]
+      split <;> simp
+    · simp only [h1, h2, Bool.false_eq_true, if_false]
+      exact nextFrame_fields trk fuel st p
+
+theorem readLoop_fields (trk : Tracker) (fuel : Nat) (st : FS) (ps : List Nat) :
+    SameWrite st (readLoop trk fuel st ps).2 := by
+  induction ps generalizing st with
+  | nil => exact ⟨rfl, rfl, rfl⟩
+  | cons p ps ih =>
+    have h := read_fields trk fuel st p
+    have hi := ih (FS.read trk fuel st p).2
+    unfold readLoop
+    simp only
+    split
+    · exact h
+    · exact h
+    · exact ⟨hi.1.trans h.1, hi.2.1.trans h.2.1, hi.2.2.trans h.2.2⟩
+
 /-! ### what the call-by-call check implies about the delivered bytes -/
 
 theorem delivered_all_eof (rs : List RRes) (h : rs.all (· == .eof) = true) : delivered rs = [] := by
